@@ -366,11 +366,13 @@ class LoopSpec:
     assigned inside the loop {name: 'int'|...}; extra_havoc: names to havoc in addition to
     the syntactically assigned ones."""
 
-    def __init__(self, inv, k='k', types=None, extra_havoc=(), facts=(), exit=None, body_post=None, hints=None):
+    def __init__(self, inv, k='k', types=None, extra_havoc=(), facts=(), exit=None, body_post=None, hints=None,
+                 head_hook=None):
         self.inv = list(inv.items()) if isinstance(inv, dict) else list(inv)
         self.exit = dict(exit or {})
         self.body_post = dict(body_post or {})   # checked at the end of every iteration (Y0 = output at loop head)
         self.hints = dict(hints or {})           # proved (own obligation) right after the invariant is assumed, then used
+        self.head_hook = head_hook               # fn(engine, frame): ghost bookkeeping at the head of the arbitrary iteration
         self.k = k
         self.types = types or {}
         self.extra_havoc = tuple(extra_havoc)
@@ -947,6 +949,8 @@ class Engine:
             return str(float(x))
         if isinstance(x, (tuple, list)) and self._has_sym(x):
             raise Unsupported('str() of container with symbolic members')
+        if isinstance(x, PyRaise):
+            return self.to_str(x.msg) if x.msg is not None else ''
         if isinstance(x, Obj):
             m = self.find_method(x, '__str__') or self.find_method(x, '__repr__')
             if m is not None:
@@ -2280,7 +2284,7 @@ class Engine:
                 from .symdict import SymDict
                 if len(cur):
                     raise Unsupported('conversion of a non-empty concrete dict to a symbolic dict')
-                self.rebind(fr, name, SymDict.empty(t[1], t[2], name=name))
+                self.rebind(fr, name, SymDict.empty(t[1], t[2], name=name, default=t[3] if len(t) > 3 else None))
         for b, a in sorted(attr_muts):
             obj = self.lookup_or_missing(b, fr)
             t = spec.types.get('%s.%s' % (b, a))
@@ -2373,6 +2377,8 @@ class Engine:
         if fr.yields is not None and not isinstance(fr.yields, DiscardYields):
             fr.env['Y0'] = fr.yields
         snapshot_all('head')
+        if spec.head_hook is not None:
+            spec.head_hook(self, fr)
 
     def loop_step(self, spec, ordinal, fr, node):
         if isinstance(node, ast.While):
